@@ -400,6 +400,8 @@ def run(prog, rep, tier):
     # the writer side lives under (BINCODE_MAX_DESERIALIZE), not with a smaller one that a long recipient list exceeds
     hf = one_body(prog, rep, 'R07.9', 'mla', exact='ArchiveHeader::from')
     if hf is not None:
+        from ..inline import inlined_body
+        hf = inlined_body(prog, hf)      # the options may be built by a private helper
         des = [b for b in hf.calls() if b.term.cmethod in ('deserialize_from', 'deserialize') and 'bincode' in (b.term.ctrait + cnorm(b.term))]
         okl = False
         for b in des:
